@@ -26,7 +26,6 @@ def eqv (exact : Bool) (a b : Rat) : Bool := if exact then a == b else relClose 
 def arrVec (a : Array Rat) : Vec := fun i => a.getD i 0
 def arrMat (cols : Nat) (a : Array Rat) : Mat := fun i j => a.getD (i * cols + j) 0
 
-def allLt (n : Nat) (p : Nat → Bool) : Bool := (List.range n).all p
 def firstBad (n : Nat) (p : Nat → Bool) : Option Nat := (List.range n).find? (fun i => !p i)
 
 def finQ : XRat → Option Rat
@@ -78,11 +77,13 @@ def mPartialUnnorm (rep : String) (mm : POMDP) (b : Vec) (a o : Nat) : Vec :=
   if rep == "generic" then partialUnnormG mm b a o else partialUnnormE mm b a o
 def mSosa (rep : String) (mm : POMDP) (a o : Nat) : Mat :=
   if rep == "generic" then sosaG mm a o else sosaE mm a o
-def mReward (rep : String) (m mm : POMDP) (b : Vec) (a : Nat) : Rat :=
-  if rep == "generic" then rewardG mm b a else if rep == "sparse" then rewardSp tolSmall m b a else rewardE mm b a
+def mReward (conv : Bool) (rep : String) (m mm : POMDP) (b : Vec) (a : Nat) : Rat :=
+  if rep == "generic" then rewardG mm b a
+  else if rep == "sparse" then (if conv then rewardSpConv tolSmall m b a else rewardSp tolSmall m b a)
+  else rewardE mm b a
 
 /-- checks of one representation's block -/
-def checkBlock (exact : Bool) (m : POMDP) (b : Vec) (B : Block) (v : Verdict) : Verdict := Id.run do
+def checkBlock (conv exact : Bool) (m : POMDP) (b : Vec) (B : Block) (v : Verdict) : Verdict := Id.run do
   let S := m.S; let O := m.O
   let rep := B.rep
   let mm := storedModel rep m
@@ -92,11 +93,11 @@ def checkBlock (exact : Bool) (m : POMDP) (b : Vec) (B : Block) (v : Verdict) : 
   -- ---- predict step
   let mp := mPredict rep mm b 0
   v := v.diffIf (!(allLt S fun s1 => eqv exact (mp s1) (part s1))) s!"{c "updateBeliefPartial"} model={toList S mp} impl={B.part}"
-  v := v.failIf (!(allLt S fun s1 => eqv exact (predictG mm b 0 s1) (part s1))) s!"{c "updateBeliefPartial"} predict_mismatch impl={B.part} spec={toList S (predictG mm b 0)}"
+  v := v.failIf (!(if exact then checkPredict mm b 0 part else allLt S fun s1 => relClose (predictG mm b 0 s1) (part s1))) s!"{c "updateBeliefPartial"} predict_mismatch impl={B.part} spec={toList S (predictG mm b 0)}"
   v := v.failIf (!(allLt S fun s1 => decide (0 ≤ part s1))) s!"{c "updateBeliefPartial"} negative_entry {B.part}"
   v := v.failIf (!(decide (absQ (sumTo S part - 1) ≤ 1 / 100000))) s!"{c "updateBeliefPartial"} not_distribution sum={ratStr (sumTo S part)}"
   -- ---- reward (not a clause of the property: correspondence only)
-  let mr := mReward rep m mm b 0
+  let mr := mReward conv rep m mm b 0
   v := v.diffIf (!(if exact then mr == B.reward else closeQ tol9 mr B.reward)) s!"{c "beliefExpectedReward"} model={ratStr mr} impl={ratStr B.reward}"
   -- ---- per observation
   for o in List.range O do
@@ -107,7 +108,7 @@ def checkBlock (exact : Bool) (m : POMDP) (b : Vec) (B : Block) (v : Verdict) : 
     let mu := mUnnorm rep mm b 0 o
     v := v.diffIf (!(allLt S fun s1 => eqv exact (mu s1) (un s1))) s!"{c "updateBeliefUnnormalized"} o={o} model={toList S mu} impl={ob.un}"
     v := v.failIf (!(allLt S fun s1 => decide (0 ≤ un s1))) s!"{c "updateBeliefUnnormalized"} negative_entry o={o} {ob.un}"
-    v := v.failIf (!(allLt S fun s1 => eqv exact (w s1) (un s1))) s!"{c "updateBeliefUnnormalized"} not_bayes_weight o={o} impl={ob.un} spec={toList S w}"
+    v := v.failIf (!(if exact then checkUnnorm mm b 0 o un else allLt S fun s1 => relClose (w s1) (un s1))) s!"{c "updateBeliefUnnormalized"} not_bayes_weight o={o} impl={ob.un} spec={toList S w}"
     v := v.failIf (!(eqv exact po (sumTo S un))) s!"{c "updateBeliefUnnormalized"} sum_not_prob_o o={o} sum={ratStr (sumTo S un)} P(o|b,a)={ratStr po}"
     -- two-stage helper: its own step, and agreement with the one-stage form
     let mpu := mPartialUnnorm rep mm part 0 o
@@ -117,7 +118,7 @@ def checkBlock (exact : Bool) (m : POMDP) (b : Vec) (B : Block) (v : Verdict) : 
     -- SOSA
     let ms := mSosa rep mm 0 o
     v := v.diffIf (!(allLt S fun s => allLt S fun s1 => eqv exact (ms s s1) (sosa s s1))) s!"{c "makeSOSA"} o={o} model={toList2 S S ms} impl={ob.sosa}"
-    v := v.failIf (!(allLt S fun s => allLt S fun s1 => eqv exact (mm.T s 0 s1 * mm.Ob s1 0 o) (sosa s s1))) s!"{c "makeSOSA"} entry_not_T_times_O o={o} impl={ob.sosa}"
+    v := v.failIf (!(if exact then checkSosa mm 0 o sosa else allLt S fun s => allLt S fun s1 => relClose (mm.T s 0 s1 * mm.Ob s1 0 o) (sosa s s1))) s!"{c "makeSOSA"} entry_not_T_times_O o={o} impl={ob.sosa}"
     v := v.failIf (!(allLt S fun s1 => eqv exact (sumTo S (fun s => b s * sosa s s1)) (un s1))) s!"{c "makeSOSA"} sosa_row_mismatch o={o}"
     -- normalised forms: only for observations of positive probability
     if po > 0 then
@@ -166,8 +167,8 @@ def crossCheck (exact : Bool) (S O : Nat) (D X : Block) (v : Verdict) : Verdict 
   let _ := S
   return v
 
-/-- `upd exact S O | T | Ob | R | b | dense … | sparse … | generic …` -/
-def upd : P String := do
+/-- `upd exact S O | T | Ob | R | b | dense … | sparse … | generic … | usereigen …` -/
+def upd (conv : Bool) : P String := do
   let exact ← P.bool; let S ← P.nat; let O ← P.nat; P.bar
   let T ← qsN (S * S); P.bar
   let Ob ← qsN (S * O); P.bar
@@ -176,6 +177,7 @@ def upd : P String := do
   let D ← block "dense" S O
   let Sp ← block "sparse" S O
   let G ← block "generic" S O
+  let UE ← block "usereigen" S O
   P.eof
   let m : POMDP := { S := S, A := 1, O := O,
                      T := fun s _ s1 => T.getD (s * S + s1) 0,
@@ -184,13 +186,15 @@ def upd : P String := do
   let b := arrVec bA
   let dropped := tablesChanged m (sparsify tolSmall m)
   let zero := (List.range O).any (fun o => probO m b 0 o == 0)
-  let tag := (if S ≤ 1 then "trivial " else "") ++ "upd" ++ (if zero then " zero_prob" else "") ++ (if dropped then " sparse_dropped" else "")
+  let tag := (if S ≤ 1 then "trivial " else "") ++ (if conv then "updc" else "upd") ++ (if zero then " zero_prob" else "") ++ (if dropped then " sparse_dropped" else "")
       ++ (if exact then " exact" else " approx")
   let v : Verdict := { tag := tag }
-  let v := checkBlock exact m b D v
-  let v := checkBlock exact m b Sp v
-  let v := checkBlock exact m b G v
+  let v := checkBlock conv exact m b D v
+  let v := checkBlock conv exact m b Sp v
+  let v := checkBlock conv exact m b G v
+  let v := checkBlock conv exact m b UE v
   let v := crossCheck exact S O D G v
+  let v := crossCheck exact S O D UE v
   let v := if dropped then v else crossCheck exact S O D Sp v
   return v.render
 
@@ -241,7 +245,8 @@ def overload : P String := do
 
 def handle (toks : List String) : String :=
   let r := match toks with
-    | "upd" :: rest => P.run upd rest
+    | "upd" :: rest => P.run (upd false) rest
+    | "updc" :: rest => P.run (upd true) rest
     | "hist" :: rest => P.run hist rest
     | "overload" :: rest => P.run overload rest
     | _ => none
